@@ -260,9 +260,10 @@ var solverCmds = map[string][]string{
 	"z3":    {"z3", "-smt2"},
 	"z3new": {"z3-new", "-smt2"},
 	"cvc5":  {"cvc5", "--lang=smt2", "--produce-models"},
+	"cvc5e": {"cvc5", "--lang=smt2", "--produce-models", "--full-saturate-quant"},
 }
 
-var solverOrder = []string{"z3new", "z3", "cvc5"}
+var solverOrder = []string{"z3new", "z3", "cvc5", "cvc5e"}
 
 type solverStat struct {
 	Wins int     `json:"wins"`
@@ -280,7 +281,7 @@ func runOne(ctx context.Context, name, file string, timeout time.Duration) (stri
 	switch name {
 	case "z3", "z3new":
 		args = append(args, fmt.Sprintf("-T:%d", int(timeout.Seconds())+1))
-	case "cvc5":
+	case "cvc5", "cvc5e":
 		args = append(args, fmt.Sprintf("--tlimit=%d", timeout.Milliseconds()))
 	}
 	args = append(args, file)
@@ -294,10 +295,16 @@ func runOne(ctx context.Context, name, file string, timeout time.Duration) (stri
 	_ = cmd.Run()
 	ms := time.Since(t0).Milliseconds()
 	s := out.String()
-	first := strings.TrimSpace(strings.SplitN(s, "\n", 2)[0])
-	switch first {
-	case "unsat", "sat", "unknown":
-		return first, s, ms
+	for _, ln := range strings.Split(s, "\n") {
+		first := strings.TrimSpace(ln)
+		if strings.HasPrefix(first, "WARNING") || first == "" {
+			continue
+		}
+		switch first {
+		case "unsat", "sat", "unknown":
+			return first, s, ms
+		}
+		break
 	}
 	if cctx.Err() != nil || strings.Contains(s, "timeout") || strings.Contains(s, "interrupted") {
 		return "timeout", s, ms
@@ -308,7 +315,7 @@ func runOne(ctx context.Context, name, file string, timeout time.Duration) (stri
 // solve races the configured solvers on the query. A definite answer (sat or unsat) from
 // any solver ends the race in quick mode; in thorough mode all solvers run to completion
 // and disagreement is reported as "disagree".
-func solve(query string, name string, timeout time.Duration, all bool, tmpdir string) SolverResult {
+func solve(query string, name string, timeout time.Duration, all bool, tmpdir string, noAbstract bool) SolverResult {
 	safe := strings.Map(func(r rune) rune {
 		if r == '/' || r == ' ' || r == '*' || r == '(' || r == ')' {
 			return '_'
@@ -321,6 +328,44 @@ func solve(query string, name string, timeout time.Duration, all bool, tmpdir st
 	file := filepath.Join(tmpdir, safe+".smt2")
 	if err := os.WriteFile(file, []byte(query), 0o644); err != nil {
 		return SolverResult{Answer: "error", Output: err.Error()}
+	}
+	if !noAbstract {
+		if aq := abstractQuery(query); aq != "" {
+			afile := filepath.Join(tmpdir, safe+".abs.smt2")
+			if os.WriteFile(afile, []byte(aq), 0o644) == nil {
+				a, o, ms := raceTwo(afile, 3*time.Second)
+				if a == "unsat" {
+					statMu.Lock()
+					if solverStats["abstract"] == nil {
+						solverStats["abstract"] = &solverStat{}
+					}
+					solverStats["abstract"].Wins++
+					solverStats["abstract"].Time += float64(ms) / 1000
+					statMu.Unlock()
+					return SolverResult{Answer: "unsat", Solver: "nl-abstract", Ms: ms, Output: o, All: map[string]string{"nl-abstract": a}}
+				}
+			}
+		}
+	}
+	if !all {
+		// stage 1: the fastest solver alone with a short limit; most obligations end here
+		st := 3 * time.Second
+		if timeout < st {
+			st = timeout
+		}
+		a, o, ms := raceTwo(file, st)
+		statMu.Lock()
+		if solverStats["z3new"] == nil {
+			solverStats["z3new"] = &solverStat{}
+		}
+		solverStats["z3new"].Time += float64(ms) / 1000
+		if a == "sat" || a == "unsat" {
+			solverStats["z3new"].Wins++
+		}
+		statMu.Unlock()
+		if a == "sat" || a == "unsat" {
+			return SolverResult{Answer: a, Solver: "z3new", Ms: ms, Output: o, All: map[string]string{"z3new": a}}
+		}
 	}
 	ctx, cancel := context.WithCancel(context.Background())
 	defer cancel()
@@ -374,4 +419,33 @@ func solve(query string, name string, timeout time.Duration, all bool, tmpdir st
 		}
 	}
 	return final
+}
+
+// raceTwo runs z3new and cvc5 (enumerative instantiation) side by side and returns the first
+// definite answer.
+func raceTwo(file string, timeout time.Duration) (string, string, int64) {
+	ctx, cancel := context.WithCancel(context.Background())
+	defer cancel()
+	type res struct {
+		a, o string
+		ms   int64
+	}
+	ch := make(chan res, 2)
+	for _, s := range []string{"z3new", "cvc5e"} {
+		go func(s string) {
+			a, o, ms := runOne(ctx, s, file, timeout)
+			ch <- res{a, o, ms}
+		}(s)
+	}
+	var last res
+	for i := 0; i < 2; i++ {
+		r := <-ch
+		if r.a == "sat" || r.a == "unsat" {
+			return r.a, r.o, r.ms
+		}
+		if last.a == "" || r.a == "unknown" {
+			last = r
+		}
+	}
+	return last.a, last.o, last.ms
 }
